@@ -13,13 +13,14 @@ func init() {
 		Decides: "(R38.1) one critical section: Make and PreferEmpty hold the maker's mutex from entry to return, and the lookup/creation helpers are called only from them; " +
 			"(R38.2) lookup before creation: a proposal is made only after the pool was asked for (point, local address, previous block) and answered not-found without an error; a found proposal is handed out unchanged; " +
 			"(R38.3) what is handed out is what was stored: the made proposal is built from the asked point, the local address, the asked previous block and the collected operations, signed with the local key under the maker's network id, stored in the pool, and returned only if signing and storing succeeded; " +
-			"(R38.4) the operations a new proposal lists are collected by the pool's de-duplicating OperationHashes (the rules R22.* of C22 are evaluated here too), and a valid proposal fact has no duplicate operation hash and no duplicate fact hash (both halves of every pair are checked by IsValidProposalFact, which ProposalFact.IsValid runs).; (R38.j) jobs handed to a worker read only captured variables that the submitter does not assign again (no job works on a later batch/slot than the one it was created for)",
+			"(R38.4) the operations a new proposal lists are collected by the pool's de-duplicating OperationHashes (the rules R22.* of C22 are evaluated here too), and a valid proposal fact has no duplicate operation hash and no duplicate fact hash (both halves of every pair are checked by IsValidProposalFact, which ProposalFact.IsValid runs).; (R38.j) jobs handed to a worker read only captured variables that the submitter does not assign again (no job works on a later batch/slot than the one it was created for); (R38.c) the pool cleaner that may delete stored proposals lowers its reference height exactly by the configured positive depth (the clean-depth rules of C24)",
 		NotDecided: "that the pool's point index still answers after clean-up of old proposals (a re-asked position older than the retention makes a new proposal; Make refuses positions more than one block behind);  several ProposalMaker instances sharing one pool.",
 		Run:        runC38,
 	})
 }
 
 func runC38(c *Ctx) {
+	poolCleanDepthRules(c, "R38.c")
 	c.Rule("R38.j", "AsyncCapture")
 	c.AsyncCaptures(c.Need("isaac.ConcurrentRequestProposal"), "*.NewJob", 1)
 	const PM = "isaac.(*ProposalMaker)."
